@@ -324,6 +324,9 @@ def lazy_iter(x):
             i += 1
     elif isinstance(x, Opaque):
         raise Undecided(f"iteration over opaque {x.name}")
+    elif isinstance(x, Obj) and x.cls is not None and "__fields__" not in x.attrs and Obj._active is not None and Obj._active.dunder(x, "__iter__") is not None:
+        it_ = Obj._active         # the interpreter at work: an instance whose class defines __iter__ is iterated through it
+        yield from lazy_iter(it_.call(it_.dunder(x, "__iter__"), x, []))
     elif hasattr(x, "__next__"):
         yield from x
     else:
